@@ -6,5 +6,6 @@ pub mod eval;
 pub mod print;
 pub mod rng;
 pub mod gen;
+pub mod gen_lat;
 pub mod xform;
 pub mod meta;
